@@ -489,6 +489,32 @@ func TestC13(t *testing.T) {
 		}
 	}
 
+	// ---- the hypotheses of emit_parse_roundtrip hold of what was actually marshalled: every id and
+	// params text of an emitted request is one trimmed JSON value (Lean: partB)
+	var hl []string
+	var hin []any
+	for i, l := range lines {
+		kind, _ := inputs[i].(map[string]any)["kind"].(string)
+		if !strings.HasPrefix(l, "c13e ") || !(strings.HasPrefix(kind, "client-") || kind == "server-notify" || kind == "server-callback") {
+			continue
+		}
+		f := strings.Fields(l)[2:]
+		for k := 0; k+7 <= len(f); k += 7 {
+			for _, part := range []string{f[k], f[k+2]} {
+				if part != "-" {
+					hl = append(hl, "c13b "+part)
+					hin = append(hin, map[string]any{"kind": kind, "part": part})
+				}
+			}
+		}
+	}
+	for i, o := range runOracle(t, hl) {
+		res.Count("roundtrip-hypothesis")
+		if o != "1" {
+			res.Disagreef("an emitted id / params text does not meet the hypothesis of emit_parse_roundtrip", hin[i], "1", o)
+		}
+	}
+
 	// ---- ParseRequests: total, error iff not JSON, one entry per member in order, flags = server's codes
 	var plines []string
 	var pimpl []string
